@@ -1,1 +1,190 @@
-/- C16: property theorems (not yet built). -/
+/-
+  C16 — results are deterministic and independent of history: property theorems.
+
+  Hash-map iteration order is an explicit, arbitrary input of the model (`Model/Det.lean`): a layer
+  lists its names in the order its `FxHashMap`/`FxHashSet` yields them, the map built by
+  `fields_visibility` is iterated through an arbitrary permutation `iter`, `iter_keys` yields each
+  scope's names in arbitrary order, `apply_tla` receives its arguments in arbitrary order.
+  Every theorem says: the answer is the same for every such order.
+-/
+import JrsVerif.Proofs.Det
+
+namespace JrsVerif.Props.C16
+open JrsVerif.Det List
+
+/-- an iteration order of a map: yields exactly the entries, in some order -/
+def IsIter (iter : Map → Map) : Prop := ∀ m, (iter m).Perm m
+
+theorem fieldsVisibility_perm {cs cs' : List Core} (h : Rel2 CorePerm cs cs')
+    (wf : ∀ c ∈ cs, CoreWF c) : (fieldsVisibility cs).Perm (fieldsVisibility cs') := by
+  have nd : ∀ cs : List Core, (visFold cs.reverse 0 []).Nodup := fun cs =>
+    (pairwise_map.mp (keysNodup_visFold cs.reverse 0 [] (by simp [KeysNodup]))).imp
+      (fun hne e => hne (by rw [e]))
+  rw [fieldsVisibility, fieldsVisibility,
+    perm_ext_iff_of_nodup ((nd cs).sublist filter_sublist) ((nd cs').sublist filter_sublist)]
+  rintro ⟨k, d⟩
+  simp only [mem_filter]
+  rw [mem_iff_mlookup _ (keysNodup_visFold cs.reverse 0 [] (by simp [KeysNodup])),
+    mem_iff_mlookup _ (keysNodup_visFold cs'.reverse 0 [] (by simp [KeysNodup])),
+    mlookup_visFold, mlookup_visFold,
+    dataGo_perm h.reverse (fun c hc => wf c (mem_reverse.mp hc))]
+
+/-- **Field enumeration never depends on hash-table iteration order.**  Whatever order each layer's
+    map yields its names in (`CorePerm`), and whatever order the collected map is iterated in
+    (`iter`, `iter'`), `fields_ex` returns the same list. -/
+theorem fieldsEx_perm_invariant {cs cs' : List Core} (h : Rel2 CorePerm cs cs')
+    (wf : ∀ c ∈ cs, CoreWF c) {iter iter' : Map → Map} (hi : IsIter iter) (hi' : IsIter iter')
+    (includeHidden : Bool) :
+    fieldsEx iter cs includeHidden = fieldsEx iter' cs' includeHidden := by
+  unfold fieldsEx
+  apply mergeSort_eq_of_perm nameLe nameLe_trans nameLe_total
+  · intro a b _ _; exact nameLe_antisymm a b
+  · exact (((hi _).trans ((fieldsVisibility_perm h wf).trans (hi' _).symm)).filter _).map _
+
+/-- the enumeration is in ascending byte order of the names -/
+theorem fieldsEx_sorted (iter : Map → Map) (cs : List Core) (b : Bool) :
+    (fieldsEx iter cs b).Pairwise (fun x y => nameLe x y = true) :=
+  pairwise_mergeSort nameLe_trans nameLe_total _
+
+/-- `ObjValue::len` (number of visible fields) does not depend on iteration order either -/
+theorem objLen_perm_invariant {cs cs' : List Core} (h : Rel2 CorePerm cs cs')
+    (wf : ∀ c ∈ cs, CoreWF c) {iter iter' : Map → Map} (hi : IsIter iter) (hi' : IsIter iter') :
+    objLen iter cs = objLen iter' cs' :=
+  (((hi _).trans ((fieldsVisibility_perm h wf).trans (hi' _).symm)).filter _).length_eq
+
+/-- non-vacuity: a three-layer object (hidden/unhide members, a removal) whose layers and result map
+    are enumerated in two different orders: the hypotheses hold and the answer is the sorted list -/
+example :
+    let cs := [Core.oop [([98], .normal), ([97], .hidden), ([99], .normal)], Core.omitC [[99]] 1,
+               Core.oop [([97], .unhide), ([100], .normal)]]
+    let cs' := [Core.oop [([99], .normal), ([98], .normal), ([97], .hidden)], Core.omitC [[99]] 1,
+                Core.oop [([100], .normal), ([97], .unhide)]]
+    Rel2 CorePerm cs cs' ∧ (∀ c ∈ cs, CoreWF c) ∧ IsIter id ∧ IsIter List.reverse ∧
+    fieldsEx List.reverse cs' false = [[97], [98], [100]] := by
+  refine ⟨?_, ?_, fun _ => .refl _, fun m => reverse_perm m, ?_⟩
+  · exact .cons (.oop (by decide)) (.cons (.omitC (by decide)) (.cons (.oop (by decide)) .nil))
+  · intro c hc
+    simp only [mem_cons, not_mem_nil, or_false] at hc
+    rcases hc with rfl | rfl | rfl <;> simp [CoreWF]
+  · unfold fieldsEx
+    exact mergeSort_eq_of_sorted_perm nameLe nameLe_trans nameLe_total
+      (fun a b _ _ => nameLe_antisymm a b) (by decide) (by decide)
+
+/-- **"did you mean" for fields** (`suggest_object_fields`): a stable sort by score of the
+    enumeration above, hence independent of iteration order as well. -/
+theorem suggestFields_perm_invariant {cs cs' : List Core} (h : Rel2 CorePerm cs cs')
+    (wf : ∀ c ∈ cs, CoreWF c) {iter iter' : Map → Map} (hi : IsIter iter) (hi' : IsIter iter')
+    (score : Name → Nat) :
+    suggestFields iter cs score = suggestFields iter' cs' score := by
+  unfold suggestFields
+  rw [fieldsEx_perm_invariant h wf hi hi' true]
+
+/-- **"did you mean" for locals** (`Context::binding`, repaired): the ranking is a function of the
+    multiset of (score, name) pairs, not of the order `iter_keys` produced them in. -/
+theorem suggestLocals_perm_invariant {keys keys' : List Cand} (h : keys.Perm keys') :
+    suggestLocals keys = suggestLocals keys' := by
+  unfold suggestLocals
+  rw [mergeSort_eq_of_perm candLe candLe_trans candLe_total
+    (fun a b _ _ => candLe_antisymm a b) (h.filter _)]
+
+/-- the same, phrased on scopes: each scope's map may yield its names in any order -/
+theorem suggestLocals_scopes_perm_invariant {scopes scopes' : List (List Cand)}
+    (h : Rel2 List.Perm scopes scopes') :
+    suggestLocals scopes.flatten = suggestLocals scopes'.flatten :=
+  suggestLocals_perm_invariant h.flatten_perm
+
+/-- the full statement for the comparator as it was before the repair (ties between equal scores
+    left to the stable sort, i.e. to the iteration order) -/
+def SuggestLocalsOldStmt : Prop :=
+  ∀ keys keys' : List Cand, keys.Perm keys' → suggestLocalsOld keys = suggestLocalsOld keys'
+
+/-- … is false: `local abc1 = 1, abc2 = 2; abc` — two names with the same score -/
+theorem suggestLocalsOld_counterexample : ¬ SuggestLocalsOldStmt := by
+  intro h
+  have := h [⟨thr, [97, 98, 99, 49]⟩, ⟨thr, [97, 98, 99, 50]⟩]
+            [⟨thr, [97, 98, 99, 50]⟩, ⟨thr, [97, 98, 99, 49]⟩] (Perm.swap _ _ _)
+  simp only [suggestLocalsOld] at this
+  have f1 : ([⟨thr, [97, 98, 99, 49]⟩, ⟨thr, [97, 98, 99, 50]⟩] : List Cand).filter
+      (fun c => decide (thr ≤ c.score)) = [⟨thr, [97, 98, 99, 49]⟩, ⟨thr, [97, 98, 99, 50]⟩] := by decide
+  have f2 : ([⟨thr, [97, 98, 99, 50]⟩, ⟨thr, [97, 98, 99, 49]⟩] : List Cand).filter
+      (fun c => decide (thr ≤ c.score)) = [⟨thr, [97, 98, 99, 50]⟩, ⟨thr, [97, 98, 99, 49]⟩] := by decide
+  rw [f1, f2, mergeSort_of_pairwise (by decide), mergeSort_of_pairwise (by decide)] at this
+  exact absurd this (by decide)
+
+/-- without score ties the old comparator was already order-independent: the repair changes
+    nothing but the order among equal scores -/
+theorem suggestLocalsOld_partial {keys keys' : List Cand} (h : keys.Perm keys')
+    (noTies : ∀ a ∈ keys, ∀ b ∈ keys, a.score = b.score → a = b) :
+    suggestLocalsOld keys = suggestLocalsOld keys' := by
+  unfold suggestLocalsOld
+  rw [mergeSort_eq_of_perm candLeOld
+    (by intro a b c; simp only [candLeOld, decide_eq_true_eq]; omega)
+    (by intro a b; simp only [candLeOld, Bool.or_eq_true, decide_eq_true_eq]; omega)
+    (by
+      intro a b ha hb h1 h2
+      simp only [candLeOld, decide_eq_true_eq] at h1 h2
+      exact noTies a (mem_filter.mp ha).1 b (mem_filter.mp hb).1 (by omega))
+    (h.filter _)]
+
+example : suggestLocals [⟨thr + 5, [98]⟩, ⟨thr, [97, 50]⟩, ⟨0, [122]⟩, ⟨thr, [97, 49]⟩]
+    = [[98], [97, 49], [97, 50]] := by
+  unfold suggestLocals
+  rw [mergeSort_eq_of_sorted_perm candLe candLe_trans candLe_total (fun a b _ _ => candLe_antisymm a b)
+    (s := [⟨thr + 5, [98]⟩, ⟨thr, [97, 49]⟩, ⟨thr, [97, 50]⟩]) (by decide) (by decide)]
+  rfl
+
+/-- **Which of several possible errors is reported** (`apply_tla`, repaired): the outcome — the
+    argument whose import does not resolve, the unknown parameter name, the unbound parameter — is
+    the same for every iteration order of the argument map (whose keys are distinct). -/
+theorem applyTla_perm_invariant {args args' : List (Name × ArgKind)} (h : args.Perm args')
+    (keys : (args.map (·.1)).Nodup) (params : List Param) :
+    applyTla args params = applyTla args' params := by
+  unfold applyTla
+  rw [mergeSort_eq_of_perm (fun a b : Name × ArgKind => nameLe a.1 b.1)
+    (fun a b c => nameLe_trans a.1 b.1 c.1) (fun a b => nameLe_total a.1 b.1)
+    (fun a b ha hb h1 h2 => eq_of_mem_of_nodup_fst keys a ha b hb (nameLe_antisymm _ _ h1 h2)) h]
+
+def ApplyTlaOldStmt : Prop :=
+  ∀ (args args' : List (Name × ArgKind)) (params : List Param), args.Perm args' →
+    (args.map (·.1)).Nodup → applyTlaOld args params = applyTlaOld args' params
+
+/-- before the repair: `function(x, y) x` with arguments `a`, `b` reports either name -/
+theorem applyTlaOld_counterexample : ¬ ApplyTlaOldStmt := by
+  intro h
+  have := h [([97], .ok), ([98], .ok)] [([98], .ok), ([97], .ok)]
+    [⟨[120], false⟩, ⟨[121], false⟩] (Perm.swap _ _ _) (by decide)
+  exact absurd this (by decide)
+
+example : applyTla [([98], .unresolvable), ([97], .unresolvable)] [⟨[97], false⟩, ⟨[98], false⟩]
+    = .importNotFound [97] := by
+  unfold applyTla
+  rw [mergeSort_eq_of_sorted_perm (fun a b : Name × ArgKind => nameLe a.1 b.1)
+    (fun a b c => nameLe_trans a.1 b.1 c.1) (fun a b => nameLe_total a.1 b.1)
+    (s := [([97], .unresolvable), ([98], .unresolvable)])
+    (fun a b ha hb h1 h2 => eq_of_mem_of_nodup_fst (by decide) a ha b hb (nameLe_antisymm _ _ h1 h2))
+    (by decide) (by decide)]
+  rfl
+
+/-- **The depth counter is restored** by every evaluation, successful, failing or stopped by the
+    limit (`StackDepthGuard`). -/
+theorem stack_depth_restored (limit : Nat) (p : Ev2) (d : Nat) : (run limit p d).2 = d :=
+  run_depth limit p d
+
+/-- **History independence of the stack limit**: on a long-lived thread, after any sequence of
+    earlier evaluations, a program meets the limit exactly where it meets it on a fresh thread. -/
+theorem stack_history_independent (limit : Nat) (hist : List Ev2) (p : Ev2) (d : Nat) :
+    afterHistory limit hist p d = run limit p d := by
+  unfold afterHistory
+  have : ∀ (hist : List Ev2) (d : Nat), hist.foldl (fun d h => (run limit h d).2) d = d := by
+    intro hist
+    induction hist with
+    | nil => intro d; rfl
+    | cons a r ih => intro d; rw [foldl_cons, run_depth]; exact ih d
+  rw [this]
+
+/-- non-vacuity: a history containing an evaluation stopped by the limit and a failing one -/
+example : afterHistory 2 [.frame [.frame [.frame [.ret]]], .frame [.fail, .ret]] (.frame [.frame [.ret]]) 0
+    = (true, 0) ∧ run 2 (.frame [.frame [.frame [.ret]]]) 0 = (false, 0) := by
+  constructor <;> rfl
+
+end JrsVerif.Props.C16
